@@ -202,6 +202,21 @@ def long_literal_definitions(tier):
     return defs
 
 
+def odd_name_definitions(tier):
+    """quantity (struct) identifiers that are legal but not in upper-camel form"""
+    defs = []
+    for qname in ("RPM", "_Flow_Rate", "Co2e", "CPULoad", "Q12", "Qty_"):
+        for kind in ("ref", "noref"):
+            if kind == "ref":
+                us = [unit("Unit_Ax", SYMS[1], "1000"), unit("Unit_Bx", SYMS[2], "0.5")]
+                defs.append({"kind": "ref", "ref": unit("Ref_Unit", SYMS[0]), "units": us, "order": [1, 0, 2], "doc_pos": None,
+                             "combo": ("qname", qname, kind), "qname": qname})
+            else:
+                us = [unit("Zeta", SYMS[1]), unit("Alpha", SYMS[2])]
+                defs.append({"kind": "noref", "ref": None, "units": us, "order": None, "doc_pos": None, "combo": ("qname", qname, kind), "qname": qname})
+    return defs
+
+
 def tiny_ref_definitions(tier):
     """scales closer together than f64::EPSILON, in every declaration order (an ordering that compares with a
     tolerance would treat them as ties)"""
@@ -235,7 +250,9 @@ def uniquify(d, n):
     """give the definition and its units globally unique identifiers (unit constants live at module level)"""
     t = tag(n)
     d = dict(d)
-    d["name"] = t + "Qty"
+    # the struct identifier: ordinarily <Tag>Qty; `qname` asks for a legal but unusual spelling (acronym, underscores,
+    # digit followed by a lower-case letter) - the unit enum is documented to be named <struct identifier>Unit verbatim
+    d["name"] = t + d.get("qname", "Qty")
     d["tag"] = t
 
     def ren(u):
